@@ -42,6 +42,7 @@ struct Live {
 }
 
 struct World<'a> {
+    in_torn_startup: bool,
     huge_cache: std::cell::RefCell<std::collections::HashMap<(usize, u32), Vec<u8>>>,
     /// the driver handles no local command at the moment (Step::Stall)
     stalled: bool,
@@ -131,6 +132,7 @@ impl<'a> World<'a> {
             .collect();
         let dists = keys.iter().map(|k| xor_distance(&peer_bytes, &k.bytes)).collect();
         World {
+            in_torn_startup: false,
             huge_cache: Default::default(),
             stalled: false,
             plan,
@@ -166,7 +168,8 @@ impl<'a> World<'a> {
 
     fn value_bytes(&self, key: usize, val: u32) -> Vec<u8> {
         let mut p = payload(self.plan.node_key, key, val);
-        if self.plan.huge_key == Some(key) {
+        // C02: every value of the key is huge; elsewhere huge and ordinary values of the key alternate
+        if self.plan.huge_key == Some(key) && (self.prop == "C02" || val % 2 == 0) {
             if let Some(v) = self.huge_cache.borrow().get(&(key, val)) {
                 return v.clone();
             }
@@ -927,7 +930,12 @@ impl<'a> World<'a> {
             self.indexed[i] = matches!(k.file, FileState::Complete(_));
         }
         self.range = None;
+        // a start-up that rewrites a metadata file which already existed can be stopped in the middle of it
+        let version_file = self.root.join("network_key_version");
+        let stamp_before = std::fs::metadata(&version_file).and_then(|m| m.modified()).ok();
         self.build();
+        let stamp_after = std::fs::metadata(&version_file).and_then(|m| m.modified()).ok();
+        let startup_rewrote_version_file = stamp_before.is_some() && stamp_after != stamp_before;
         settle().await;
         let _ = self.absorb(Owner::Other);
         // restart oracle
@@ -1007,6 +1015,24 @@ impl<'a> World<'a> {
             self.payments = got;
         }
         self.check_index_mirror(ctx);
+        if startup_rewrote_version_file && !self.in_torn_startup && self.rep.violations.is_empty() {
+            // the start-up just performed truncated and rewrote the version file: had the process been stopped
+            // (or the disk been full) between the truncation and the write, the file would be empty or a prefix
+            self.rep.probe("startup_rewrites_the_version_file");
+            let full = std::fs::read(&version_file).unwrap_or_default();
+            for cut in [0usize, 1] {
+                if cut > full.len() || !self.rep.violations.is_empty() {
+                    break;
+                }
+                self.in_torn_startup = true;
+                self.live = None;
+                let _ = std::fs::write(&version_file, &full[..cut]);
+                self.rep.fault("startup_stopped_while_rewriting_the_version_file");
+                self.rep.log(format!("start-up stopped after writing {cut} of {} bytes of the version file; next start-up", full.len()));
+                Box::pin(self.crash_and_restart("torn_startup")).await;
+                self.in_torn_startup = false;
+            }
+        }
     }
 
     async fn run(&mut self) {
